@@ -283,7 +283,8 @@ def snapshot(a: Allocation) -> dict:
                       "alloc": [(m, Fraction(v)) for m, v in ra.alloc.items()], "depth": ra.depth})
     mods = module_order(a)
     return {"cells": cells, "area": {m: a.area(m) for m in mods},
-            "center": {m: (a.center(m).x, a.center(m).y) for m in mods}, "obj": a}
+            "center": {m: (a.center(m).x, a.center(m).y) for m in mods}, "obj": a,
+            "eps": (Rectangle._distance_epsilon, Rectangle._area_epsilon)}
 
 
 def err(e: BaseException) -> str:
@@ -826,13 +827,16 @@ def spec_c12_step(ctx: Ctx, inp: dict, idx: int, op, before: dict, after: dict |
     t = tol_of(mode, olds)
     if op[0] == "M":
         a: Allocation = before["obj"]
+        Rectangle.set_epsilon(*before["eps"])       # the class-wide tolerances the history ran with
         try:
             pred = a.must_be_refined(op[1])
             ref = a.refine(op[1], 1)
+            new = snapshot(ref)["cells"]
         except Exception as e:
             ctx.spec_fail("refine_ok", inp, {"step": idx, "op": op, "raised": err(e)}, size)
             return
-        new = snapshot(ref)["cells"]
+        finally:
+            Rectangle.undefine_epsilon()
         changed = not cells_equal(olds, new, Fraction(0))
         if pred != changed:
             which = [small(c) for c in olds if (len(c["alloc"]) == 0 or c["fixed"])][:2]
